@@ -5,6 +5,6 @@ CONSTANTS
   Family = "trunc"
   FaultBehs = {}
   MaxGens = 0
-  TruncLen = 59
+  TruncLen = 68
 INVARIANT Emit
 CHECK_DEADLOCK FALSE
